@@ -1083,6 +1083,11 @@ func (fc *FnCtx) modified(li *loopInfo) (locals map[*ssa.Alloc]bool, heaps map[s
 				al, k := rootOf(x.Addr)
 				if al != nil {
 					locals[al] = true
+					if al2, ok := x.Addr.(*ssa.Alloc); ok {
+						for _, g := range fc.anchorGhostsFn(in.Parent(), "assign "+al2.Comment) {
+							heaps[fc.ghostKey(g)] = true
+						}
+					}
 				} else {
 					addKey(k)
 				}
